@@ -33,6 +33,7 @@ Print Assumptions C06_sequence.
 (* after the last frame, a clean end of stream is io.EOF *)
 Theorem C06_then_eof : read_packet [] = RP (fail EEOF [] [1] []).
 Proof. reflexivity. Qed.
+Print Assumptions C06_then_eof.
 
 Example C06_example :
   read_all 3 [Chunk [x90; x02; x00] None; Chunk [] None; Chunk [x0a; xc0] None; Chunk [x00] (Some EEOF)]
